@@ -9,6 +9,8 @@ CONSTANTS
   Fails = {"perm"}
   MaxFaults = 1
   MaxCmds = 6
+  MaxEnv = 0
+  EnvPlan = "any"
   Allowed = {"*"}
   Devs = {}
   Gen = FALSE
